@@ -73,8 +73,8 @@ MODEL = dict(
           ("modify_country", "ok"), ("delete_country", "ok"), ("delete_country", "fail"),
           ("add_module", "ok"), ("add_module", "fail"), ("remove_module", "ok"), ("remove_module", "fail")],
     # the real limits are reached from both sides (total capacity of binder / docs: thorough tier only)
-    need_cnt=["overcap_keys", "atlimit_keys", "overcap_cti", "atlimit_cti", "overcap_binder", "atlimit_binder",
-              "overcap_irs", "atlimit_irs", "overcap_modules", "atlimit_modules", "C20_irs_recovery"],
+    need_cnt=[x + n for n in ("rpk", "kpt", "topics", "issuers", "batch", "countries", "modules") for x in ("over_", "at_")]
+             + ["C20_irs_recovery"],
 )
 
 
